@@ -113,7 +113,9 @@ class MPSAdd(MPSIdentity):
         """
 
         def vect_fn(in_prec, in_theta_alpha):
-            v = vars(self)
+            # work on a copy: the instance dictionary must not be polluted with the (batched)
+            # values used to evaluate the cost
+            v = dict(vars(self))
             v.update(out_shape)
             v['in_precision'] = in_prec
             v['in_format'] = int
